@@ -358,6 +358,38 @@ pub fn brotli_decompress_prefix(data: &[u8]) -> Vec<u8> {
     out
 }
 
+/// Decode a prefix of the compression layer without its sizes footer: consecutive
+/// brotli streams, each as far as its bytes allow (what a sequential reader can get)
+pub fn dec_compress_streams_prefix(data: &[u8]) -> Vec<u8> {
+    use brotli::writer::StandardAlloc;
+    let mut out = Vec::new();
+    let mut buf = vec![0u8; 65536];
+    let mut available_in = data.len();
+    let mut input_offset = 0usize;
+    'streams: loop {
+        let mut state = brotli::BrotliState::new(StandardAlloc::default(), StandardAlloc::default(), StandardAlloc::default());
+        loop {
+            let mut available_out = buf.len();
+            let mut output_offset = 0usize;
+            let mut written = 0usize;
+            let r = brotli::BrotliDecompressStream(&mut available_in, &mut input_offset, data, &mut available_out, &mut output_offset, &mut buf, &mut written, &mut state);
+            out.extend_from_slice(&buf[..output_offset]);
+            match r {
+                brotli::BrotliResult::NeedsMoreOutput => continue,
+                brotli::BrotliResult::NeedsMoreInput if output_offset > 0 => continue,
+                brotli::BrotliResult::ResultSuccess => {
+                    if available_in == 0 {
+                        break 'streams;
+                    }
+                    continue 'streams;
+                }
+                _ => break 'streams,
+            }
+        }
+    }
+    out
+}
+
 pub fn dec_compress(k: &K, inner: &[u8]) -> Result<(Vec<u8>, CompInfo), String> {
     let n = inner.len();
     if n < 4 {
